@@ -335,18 +335,20 @@ def direct_update_check(w, rec, snap, i):
     return n
 
 
-def behaviour(obj, salt):
-    """Observer battery on a clone (same hidden state, never warms the object)."""
+def behaviour(obj, salt, on_clone=True):
+    """Observer battery.  On a clone it never warms the object; on the object itself it is an ordinary
+    sequence of read-only queries (which may fill caches that a later in-place update must not leave stale)."""
     jnp = lib()["jnp"]
     X = jnp.asarray(ref.generic_points(int(obj.D), ("upd", salt))[:3])
-    c = ref.clone(obj)
+    t = (lambda: ref.clone(obj)) if on_clone else (lambda: obj)
     return {
-        "evaluate_ln": A(ref.clone(obj).evaluate_ln(X)),
-        "log_integral": A(ref.clone(obj).log_integral()),
-        "integrate_x": A(ref.clone(obj).integrate("x")),
-        "integrate_xx": A(ref.clone(obj).integrate("xx'")),
-        "integrate_cubic": A(ref.clone(obj).integrate("xb'xx'", b_vec=X[0])),
-        "entropy": A(c.entropy()),
+        "evaluate_ln": A(t().evaluate_ln(X)),
+        "log_integral": A(t().log_integral()),
+        "integrate_x": A(t().integrate("x")),
+        "integrate_xx": A(t().integrate("xx'")),
+        "integrate_cubic": A(t().integrate("xb'xx'", b_vec=X[0])),
+        "integrate_quad": A(t().integrate("(Ax+a)(Bx+b)'", A_mat=X[:2], B_mat=X[:2])),
+        "entropy": A(t().entropy()),
     }
 
 
@@ -424,7 +426,9 @@ def execute(records, salt, findings=None, check_updates=True):
         snap = None
         if rec["op"] == "update" and check_updates:
             snap = ref.snapshot(tw.wp.obj(rec["a"]))
-            pre = behaviour(tw.wp.obj(rec["a"]), (salt, i))
+            # every other update is preceded by the queries on the object itself: caches filled before an
+            # in-place update must not survive it
+            pre = behaviour(tw.wp.obj(rec["a"]), (salt, i), on_clone=(i % 2 == 1))
             dbeh = behaviour(tw.wp.obj(rec["d"]), (salt, i))
         tw.step(rec, i)
         if snap is not None:
